@@ -1,6 +1,8 @@
 import EaModel.Properties.C01
 import EaModel.Properties.C04
 import EaModel.Properties.C05
+import EaModel.Lemmas.Recur
+import EaModel.Properties.C02
 /-!
 # C03 — recurring jobs realise their trigger occurrence sequence end to end
 
@@ -10,10 +12,13 @@ C03 is the composition of two proved layers:
   `getNext producer now` where `now` is the execution instant;
 * the trigger (C04/C05): `getNext` returns the least admissible occurrence strictly after its argument
   (`Ea.C05.getNext_least`, `Ea.C04.getNext_gt`).
-The theorem below states the link: what the job reports after an execution is the least admissible occurrence of
-its trigger after the execution instant. The end-to-end statement over days to weeks is decided by the correspondence
-run (model vs. real scheduler under the virtual clock in zones with clock changes) and by an oracle that enumerates
-occurrences independently.
+`reschedule_is_next_occurrence` states the link: what the job reports after an execution is the least admissible
+occurrence of its trigger after the execution instant. `recurring_round` is one full round of the cycle in any
+reachable state, whatever else is queued: the due job is executed by the wake-up and is queued again, for exactly
+that next occurrence. By `C02.one_execution_per_announcement` no announcement is executed twice. The statement
+over days to weeks in real zones is in addition decided by the correspondence run (model vs. real scheduler under
+the virtual clock in zones with clock changes, with late wake-ups) and by an oracle that enumerates occurrences
+independently.
 -/
 namespace Ea.C03
 
@@ -45,5 +50,74 @@ theorem reschedule_is_next_occurrence (setT : St → St) (s : St) (j : Nat) (p :
   · rw [hok] at h2; cases h2
   · show ((setNextRun s' j (some r)).1.jobs j).nextRun = some r
     rw [hjobs]; simp [hnr]
+
+
+/-- One round of a recurring job, in every reachable state and whatever else is queued or happens in the same
+wake-up (other due jobs, failing callables and callbacks, jobs that finish, the timer being re-armed
+recursively): when the loop runs and the job's reported run time `t` has been reached, the job is executed in
+that wake-up (an `exec j now t` entry is appended), and afterwards it is queued again with the record
+`nextRecord`: RUNNING, reporting `n = get_next(trigger, now)` — the next occurrence after the instant of the
+execution, strictly in the future — its grid anchored, one more execution and one more trigger query counted.
+(Hypotheses: the trigger query of this round does not raise and yields `n`.) -/
+theorem recurring_round (env : Env) (now : Int) (en : Bool) (ops : List Op) (j : Nat) (p : Producer) (t n : Int) :
+    let s := runOps (initSt env now en) ops
+    s.enabled = true → j ∈ s.queue → s.nr j = some t → t ≤ s.now →
+    (s.job j).kind = .recurring p → (s.job j).linked = true →
+    ¬ ((s.job j).calls ∈ (s.job j).trigFail ∨ (s.job j).trigFailFrom ≤ (s.job j).calls) →
+    getNext s.env (p.anchorAt s.now) s.now = .ok n →
+    let s' := (step s .yield).1
+    C01.Exhausted s' ∨
+      ((∃ l, s'.log = l ++ s.log ∧ Ev.exec j s.now t ∈ l) ∧ j ∈ s'.queue ∧
+        s'.job j = nextRecord (s.job j) p s.now n ∧ s.now < n) := by
+  intro s hen hm ht hdue hk hl hf hg s'
+  have hi : Inv s := inv_reachable env now en ops
+  have hg0 : Good s := C01.good_reachable env now en ops
+  have hgt : n > s.now := C04.getNext_gt s.env _ _ _ hg
+  have hexec := C01.due_jobs_executed_in_wakeup env now en ops j t hen hm ht hdue
+  rcases hexec with hx | hx
+  · exact Or.inl hx
+  · rcases hg0 with hfat | hk0
+    · -- a fatal entry in the log stays there
+      left
+      obtain ⟨l, hl', _⟩ := hx
+      apply C01.exhausted_of_hasFatal
+      exact HasFatal_mono hfat (fun e he => by
+        show e ∈ (step s .yield).1.log
+        rw [hl']; exact List.mem_append_right _ he)
+    · obtain ⟨th, hth, hle⟩ := timer_le_queued hi hk0 hen hm ht
+      have hfire : (step s .yield).1 = runJobs OPFUEL s := by
+        show fireDue s = runJobs OPFUEL s
+        unfold fireDue
+        rw [hth]
+        simp only []
+        rw [if_pos (by omega : th ≤ s.now)]
+      have htr := rSpec j (s.jobs j) p s.now n t s.env hk hl hf ht hg OPFUEL
+        { s with timer := none } (Inv_timer_none hi) rfl rfl
+      have hat : At j (s.jobs j) { s with timer := none } := ⟨hm, rfl⟩
+      have hgf := runJobs_goodF OPFUEL hi (Or.inr hk0) hth
+      have hc := runJobs_clock OPFUEL hi
+      have hs' : s' = runJobs OPFUEL s := hfire
+      rw [hs']
+      rw [hfire] at hx
+      rcases hgf with hfat | ⟨hk2, hfr2⟩
+      · exact Or.inl (C01.exhausted_of_hasFatal hfat)
+      · right
+        refine ⟨hx, ?_⟩
+        rcases htr.1 hat with h0 | h1
+        · -- still queued for `t`: impossible, nothing that is due is left behind
+          exfalso
+          have hen2 : (runJobs OPFUEL s).enabled = true := by rw [hc.enabled]; exact hen
+          obtain ⟨t', h1', h2'⟩ := queued_after_timer (runJobs_inv OPFUEL hi) hk2 hfr2 hen2 j h0.1
+          have : (runJobs OPFUEL s).nr j = some t := by
+            show ((runJobs OPFUEL s).jobs j).nextRun = some t
+            have := h0.2
+            unfold runJobs
+            rw [this]; exact ht
+          rw [this] at h1'; cases h1'
+          rw [hc.now] at h2'
+          omega
+        · have h1' : j ∈ (runJobs OPFUEL s).queue ∧ (runJobs OPFUEL s).job j = nextRecord (s.job j) p s.now n := by
+            unfold runJobs; exact ⟨h1.1, h1.2⟩
+          exact ⟨h1'.1, h1'.2, hgt⟩
 
 end Ea.C03
